@@ -2,6 +2,7 @@ import MpVerif.C02.LemmasTop
 import MpVerif.C02.LemmasTotal
 import MpVerif.C02.LemmasSafe
 import MpVerif.C02.LemmasHeader
+import MpVerif.C02.GenTieStruct
 /-!
 # C02 — property theorems
 
@@ -398,5 +399,95 @@ theorem C02_fixed_float_cast :
 theorem C02_fixed_compl_overflow :
     (readNL (bytesOf [103, 10, 32, 49, 32, 48, 32, 48, 10, 32, 48, 32, 48, 32, 50, 49, 52, 55, 52, 56, 51, 54, 52, 55, 32, 49, 10]) 0 none).outcome
       = .err ⟨.ioverflow, false, 3, 18⟩ := by decide
+
+/-! ### statement audit (round 4): non-vacuity and guards of totalised definitions -/
+
+/-- the predicate discriminates: a header with two variables accepts `OnVariableRef(1)` inside a constraint body and
+    rejects `OnVariableRef(5)`, a count that is not honoured, a negative-length (here: missing) argument list, an
+    `End*` of the wrong kind, and anything after `EndInput` -/
+def hdr2 : Header := { format := 0, num_vars := 2, num_algebraic_cons := 1, num_objs := 1, num_funcs := 1 }
+example : Consistent true ⟨.ok, some hdr2, [.varRef 1, .algCon 0, .endInput]⟩ = true := by decide
+example : Consistent true ⟨.ok, some hdr2, [.varRef 5, .algCon 0, .endInput]⟩ = false := by decide
+example : Consistent true ⟨.ok, some hdr2, [.linearCon 0 2, .addTerm 0 0, .endInput]⟩ = false := by decide
+example : Consistent true ⟨.ok, some hdr2, [.beginSum 3, .number 0, .addArg, .endSum, .algCon 0, .endInput]⟩ = false := by decide
+example : Consistent true ⟨.ok, some hdr2, [.beginCall 0 1, .number 0, .addArg, .endSum, .algCon 0, .endInput]⟩ = false := by decide
+example : Consistent true ⟨.ok, some hdr2, [.endInput, .varBounds 0 0 0]⟩ = false := by decide
+example : Consistent true ⟨.ok, some hdr2, [.varRef 1, .algCon 0]⟩ = false := by decide            -- completed without EndInput
+example : Consistent true ⟨.err ⟨.expr, false, 12, 1⟩, some hdr2, [.beginSum 3, .number 0, .addArg]⟩ = true := by decide   -- a prefix
+/-- the strict / relaxed distinction: an expression left without owner -/
+example : Consistent true ⟨.ok, some hdr2, [.number 0, .varBounds 0 0 0, .endInput]⟩ = false := by decide
+example : Consistent false ⟨.ok, some hdr2, [.number 0, .varBounds 0 0 0, .endInput]⟩ = true := by decide
+
+/-- instance of the hypothesis of `C02_header_first` (no header): the empty input -/
+example : (readNL ByteArray.empty 0 none).header = none := by decide
+/-- instances of the range hypotheses of the `C02_gen_*` theorems, one per direction -/
+example : Gen.NLGuards.g_NLReader_ReadUInt_u__integer_N_out_of_bounds 5 3 = .ret 1 := by decide
+example : Gen.NLGuards.g_NLReader_ReadUInt_u__integer_N_out_of_bounds 2 3 = .ret 0 := by decide
+/-- outside the range hypothesis the C++ guard really differs from the mathematical one (a negative `int` converts to a
+    huge `unsigned`): the hypothesis `v ≤ INT_MAX` of `C02_gen_oob` is the postcondition of `ReadUInt()`, see
+    `C02_text_uint_range` -/
+example : Gen.NLGuards.g_NLReader_ReadUInt_u__integer_N_out_of_bounds (-1) 3 = .ret 1 := by decide
+
+/-- `TextReader::ReadUInt()` only returns values in `0 … INT_MAX` (the range hypothesis under which the `C02_gen_*`
+    guard theorems are stated) -/
+theorem C02_text_uint_range (inp : Inp) : LPost (tReadUInt inp) (fun v => v ≤ intMax) := by
+  constructor
+  intro r v r' h
+  unfold tReadUInt at h
+  obtain ⟨_, r1, _, h⟩ := bind_ok h
+  obtain ⟨o, r2, ho, h⟩ := bind_ok h
+  cases o with
+  | none => exact absurd h (fun h3 => (lpost_tReport inp (cls := .uint) (Q := fun _ => False)).h r2 _ _ h3)
+  | some w =>
+    cases h
+    unfold tReadIntWithoutSign at ho
+    split at ho
+    · cases ho
+    · split at ho
+      · cases ho
+      · split at ho
+        · exact absurd ho (fun h3 => (lpost_tReport inp (cls := .toobig) (Q := fun _ => False)).h _ _ _ h3)
+        · split at ho
+          · exact absurd ho (fun h3 => (lpost_tReport inp (cls := .toobig) (Q := fun _ => False)).h _ _ _ h3)
+          · rename_i hle
+            cases ho
+            simp only [G.tooBig] at hle
+            omega
+
+/-- `C02_file_eq_string` does not rest on the totalised read beyond the array: for a positive page size the buffer
+    handed to `ReadNLString` physically contains a byte at offset `size` (copy path: the appended NUL; mmap path: the
+    zero tail of the last page) and that byte is NUL -/
+theorem C02_file_buffer_terminated (content : ByteArray) (pageSize : Nat) (hp : 0 < pageSize) :
+    content.size < (fileBuffer content pageSize).size ∧ bufRd (fileBuffer content pageSize) content.size = 0 := by
+  refine ⟨?_, fileBuffer_nul content pageSize content.size (Nat.le_refl _)⟩
+  have hsz : content.data.size = content.size := rfl
+  unfold fileBuffer
+  simp only
+  by_cases h0 : (content.size % pageSize != 0) = true
+  · rw [if_pos h0]
+    have hlt : content.size % pageSize < pageSize := Nat.mod_lt _ hp
+    have hle : content.size % pageSize ≤ content.size := Nat.mod_le _ _
+    have hne : ¬ (content.size == content.size + pageSize - content.size % pageSize) = true := by
+      simp only [beq_iff_eq]; omega
+    rw [if_neg hne]
+    simp only [Array.size_append, Array.size_replicate]
+    omega
+  · rw [if_neg h0]
+    simp only [beq_self_eq_true, ↓reduceIte, Array.size_push]
+    omega
+
+/-- instance of the hypothesis of `C02_swap_field`: the two-byte field `01 02` stored as `02 01` -/
+def twoBytes (a b : UInt8) : Inp :=
+  ⟨fun p => if p = 0 then a else if p = 1 then b else 0, 2, by
+    intro p hp
+    have h0 : p ≠ 0 := by omega
+    have h1 : p ≠ 1 := by omega
+    simp [h0, h1]⟩
+
+example : leBytes (twoBytes 2 1) true 0 2 = leBytes (twoBytes 1 2) false 0 2 :=
+  C02_swap_field _ _ 0 2 (by
+    intro i hi
+    have : i = 0 ∨ i = 1 := by omega
+    rcases this with rfl | rfl <;> simp [twoBytes])
 
 end MpVerif.C02
